@@ -24,6 +24,11 @@ pub enum Op {
     /// RenderHandle: interval eval on inputs -> simplify (cached) -> float
     /// slice eval, for each input in turn; then recycle everything
     Handle { f: u16, inps: Vec<u16> },
+    /// Shape-level evaluators (their own scratch columns on top of the inner
+    /// evaluator), long-lived across the history: batch of `n` samples of
+    /// function `f` with its free variables bound through ShapeVars.
+    /// kind: 0 point, 1 interval, 2 float slice, 3 grad slice
+    ShapeEval { f: u16, kind: u8, inp: u16, n: u8 },
 }
 
 #[derive(Clone, Debug, Serialize, Deserialize)]
@@ -192,6 +197,101 @@ fn fresh<F: MathFunction + Function<Trace = VmTrace>>(
     Ok(f)
 }
 
+struct ShapeEvals<F: Function> {
+    pe: fidget_core::shape::ShapeTracingEval<F::PointEval>,
+    ie: fidget_core::shape::ShapeTracingEval<F::IntervalEval>,
+    fe: fidget_core::shape::ShapeBulkEval<F::FloatSliceEval>,
+    ge: fidget_core::shape::ShapeBulkEval<F::GradSliceEval>,
+}
+
+impl<F: Function + Clone> ShapeEvals<F> {
+    fn new() -> Self {
+        ShapeEvals {
+            pe: Shape::<F>::new_point_eval(),
+            ie: Shape::<F>::new_interval_eval(),
+            fe: Shape::<F>::new_float_slice_eval(),
+            ge: Shape::<F>::new_grad_slice_eval(),
+        }
+    }
+}
+
+/// One Shape-level evaluation as comparable words (errors included: a missing
+/// variable must be reported the same way by reused and fresh objects)
+fn shape_eval_kind<F: Function<Trace = VmTrace> + Clone>(
+    shape: &Shape<F>,
+    b: &Built,
+    ev: &mut ShapeEvals<F>,
+    tstore: &mut Vec<F::TapeStorage>,
+    kind: u8,
+    inputs: &[Vec<Fl>],
+    inp: usize,
+    n: usize,
+) -> Result<Obs, Fail> {
+    let pts: Vec<&Vec<Fl>> = (0..n).map(|j| &inputs[(inp + j) % inputs.len()]).collect();
+    let mut sv: ShapeVars<f32> = ShapeVars::new();
+    for (i, v) in b.vars.iter().enumerate().skip(3) {
+        if let Some(ix) = v.index() {
+            sv.insert(ix, pts[0][i].0);
+        }
+    }
+    let err = |e: String| Fail::new("eval-error", e);
+    let (x, y, z) = (pts[0][0].0, pts[0][1].0, pts[0][2].0);
+    match kind % 4 {
+        0 => {
+            let tape = shape.point_tape(tstore.pop().unwrap_or_default());
+            let (o, t) = ev
+                .pe
+                .eval_with_vars(&tape, x, y, z, &sv)
+                .map_err(|e| err(format!("{e:?}")))?;
+            let tb = t.map(|t| t.as_slice().iter().map(|c| *c as u8).collect());
+            let r = (vec![nb(o)], tb);
+            tstore.extend(tape.recycle());
+            Ok(r)
+        }
+        1 => {
+            let tape = shape.interval_tape(tstore.pop().unwrap_or_default());
+            let (o, t) = ev
+                .ie
+                .eval_with_vars(&tape, interval_of(x), interval_of(y), interval_of(z), &sv)
+                .map_err(|e| err(format!("{e:?}")))?;
+            let tb = t.map(|t| t.as_slice().iter().map(|c| *c as u8).collect());
+            let r = (vec![nb(o.lower()), nb(o.upper())], tb);
+            tstore.extend(tape.recycle());
+            Ok(r)
+        }
+        2 => {
+            let tape = shape.float_slice_tape(tstore.pop().unwrap_or_default());
+            let col = |c: usize| -> Vec<f32> { pts.iter().map(|p| p[c].0).collect() };
+            let o = ev
+                .fe
+                .eval_with_vars(&tape, &col(0), &col(1), &col(2), &sv)
+                .map_err(|e| err(format!("{e:?}")))?;
+            let mut words = vec![o.len() as u32];
+            words.extend(o.iter().map(|v| nb(*v)));
+            tstore.extend(tape.recycle());
+            Ok((words, None))
+        }
+        _ => {
+            let tape = shape.grad_slice_tape(tstore.pop().unwrap_or_default());
+            let col = |c: usize| -> Vec<Grad> {
+                pts.iter()
+                    .map(|p| {
+                        Grad::new(p[c].0, (c == 0) as u8 as f32, (c == 1) as u8 as f32, (c == 2) as u8 as f32)
+                    })
+                    .collect()
+            };
+            let o = ev
+                .ge
+                .eval_with_vars(&tape, &col(0), &col(1), &col(2), &sv)
+                .map_err(|e| err(format!("{e:?}")))?;
+            let mut words = vec![o.len() as u32];
+            words.extend(o.iter().flat_map(|g| [nb(g.v), nb(g.dx), nb(g.dy), nb(g.dz)]));
+            tstore.extend(tape.recycle());
+            Ok((words, None))
+        }
+    }
+}
+
 fn run<F: MathFunction + Function<Trace = VmTrace> + fidget_core::render::RenderHints>(
     case: &Case,
     cx: &mut Cx,
@@ -210,6 +310,8 @@ fn run<F: MathFunction + Function<Trace = VmTrace> + fidget_core::render::Render
     }
     // long-lived objects
     let mut evs = Evals::<F>::new();
+    let mut sevs = ShapeEvals::<F>::new();
+    let mut last_shape: [Option<(usize, usize)>; 4] = [None; 4];
     let mut tstore: Vec<F::TapeStorage> = vec![];
     let mut fstore: Vec<F::Storage> = vec![];
     let mut ws: F::Workspace = Default::default();
@@ -330,6 +432,42 @@ fn run<F: MathFunction + Function<Trace = VmTrace> + fidget_core::render::Render
                 if let Some(func) = live[li].f.take() {
                     cx.ev.count("functions_recycled");
                     fstore.extend(func.recycle());
+                }
+            }
+            Op::ShapeEval { f, kind, inp, n } => {
+                let li = pick(*f, &live);
+                let Some(func) = live[li].f.as_ref() else { continue };
+                if func.output_count() != 1 {
+                    continue;
+                }
+                let b = &builts[live[li].spec].0;
+                let inp = sel_index(*inp, case.inputs.len());
+                let n = (*n as usize % 20) + 1;
+                let k = (*kind % 4) as usize;
+                let shape = Shape::new_raw(func.clone());
+                let nv = func.vars().len();
+                if let Some((pv, pn)) = last_shape[k] {
+                    if pv > nv && pn != n {
+                        cx.ev.count("shape_evaluator_reused_with_fewer_variables_and_other_batch_size");
+                    }
+                }
+                last_shape[k] = Some((nv, n));
+                let got = shape_eval_kind(&shape, b, &mut sevs, &mut tstore, *kind, &case.inputs, inp, n)?;
+                let ff: F = fresh(&builts, live[li].spec, &live[li].chain, &case.inputs)?;
+                let fshape = Shape::new_raw(ff);
+                let mut fe = ShapeEvals::<F>::new();
+                let mut fts = vec![];
+                let want = shape_eval_kind(&fshape, b, &mut fe, &mut fts, *kind, &case.inputs, inp, n)?;
+                cx.ev.count("shape_eval_comparisons");
+                if got != want {
+                    fail!(
+                        "reuse-changes-eval",
+                        "step {step}: Shape-level kind {k} on function {li} ({nv} variables, batch {n}): reused evaluator gives a different result than a fresh one (lengths {} vs {}, traces {:?} vs {:?})",
+                        got.0.len(),
+                        want.0.len(),
+                        got.1,
+                        want.1
+                    );
                 }
             }
             Op::Handle { f, inps } => {
@@ -490,6 +628,8 @@ impl Prop for P {
             1 => any::<u16>().prop_map(|f| Op::RecycleFn { f }),
             1 => (any::<u16>(), vec(any::<u16>(), 1..=4))
                 .prop_map(|(f, inps)| Op::Handle { f, inps }),
+            2 => (any::<u16>(), 0u8..4, any::<u16>(), any::<u8>())
+                .prop_map(|(f, kind, inp, n)| Op::ShapeEval { f, kind, inp, n }),
         ];
         (
             vec(f, 2..=4),
@@ -556,7 +696,8 @@ impl Prop for P {
          counts: Eval (point / interval / float-slice 1-9 samples / grad-slice) with ONE long-lived evaluator per kind and \
          tape storage taken from a shared pool and recycled afterwards; Simplify with a trace from the long-lived \
          evaluator, function storage from a pool of recycled functions and ONE shared workspace; RecycleFn; and \
-         RenderHandle sub-histories (interval eval -> cached simplify -> float-slice eval -> recycle into the same pools); \
+         RenderHandle sub-histories (interval eval -> cached simplify -> float-slice eval -> nested once more on the child handle -> recycle into the same pools); \
+         ShapeEval with ONE long-lived Shape-level evaluator per kind (own scratch columns; batches of 1-20 samples, free variables bound through ShapeVars); \
          interpreter (255, 8 or 4 registers, the small budgets making nearly every tape spill) or JIT. Model: after every Eval / Simplify the same call is made on brand-new objects (function \
          rebuilt from its spec and simplification chain, fresh storage, fresh evaluator, fresh workspace); outputs, traces, \
          size, output_count and variable count must be identical bit-for-bit. Non-trivial = an evaluator last used by a \
